@@ -18,10 +18,11 @@ CLAIMS = {
         text=("Lean theorems (Props/C08.lean): byte comparison of the normalised sort key equals the declared order for every fixed-width "
               "type/width, every ASC/DESC x NULLS FIRST/LAST combination and any number of key columns (key_row_embedding, key_col_embedding, "
               "key_col_injective), and the 12-byte string prefix never contradicts the full byte order (string_prefix_sound) - all values, by "
-              "induction, no bound. Tie to the code: the real SortLayout::write_key_arrays is run on exhaustive 8/16-bit domains, boundary-biased "
+              "induction, no bound; merging: the two-run merge is a permutation and keeps sortedness for any total preorder (merge_perm, merge_sorted), any merge order of any number of sorted runs gives a sorted permutation of all rows "
+              "(merge_tree_sorted_perm), and truncating runs to the limit hint before merging never loses one of the first n rows (merge_take). Tie to the code: the real SortLayout::write_key_arrays is run on exhaustive 8/16-bit domains, boundary-biased "
               "wide values, strings and multi-column rows and must equal Core/SortKey.lean byte for byte; an independent order oracle checks the "
               "implementation's own key bytes and SQL-level ORDER BY/LIMIT/OFFSET scripts (sorted, permutation, exact slice)."),
-        note=TB + "sort/merge/limit operators are covered by the SQL-level oracle only (Lean model of sort_from_blocks/merge pending); Python comparator of tools/sqlutil.py is the SQL oracle.",
+        note=TB + "the merge model (Core/Merge.lean) is an abstraction of BinaryMerger (block boundaries and heap keys are not modelled) tied only by the SQL-level sort oracle; sort_from_blocks is not modelled; Python comparator of tools/sqlutil.py is the SQL oracle.",
         technique="Lean 4 proof (order embedding by induction) + differential correspondence with the real key encoder + SQL sort oracle",
         design="5/C08"),
     "C12": dict(
